@@ -187,6 +187,20 @@ def runRaw (spec : Bool) (unit vcp sets nq : String) (rest : List String) : Stri
   | some (root, []) => " | ".intercalate (qs.map (rawAnswer spec (cps unit) (cps vcp) root))
   | _ => "bad-tree"
 
+/-! ### `_event_stream` on the iterator's elements with their parent pointers
+
+    c14 evs <sets> <item>*      item := T <parent> <id> <canBeEmpty> <ncontents> <setidx|N> <name> | S <parent> -/
+def parseItems (sets : List (List PStr)) : Nat → List String → Option (List FItem)
+  | 0, _ => none
+  | _, [] => some []
+  | f + 1, "S" :: p :: rest => (parseItems sets f rest).map (FItem.str p.toNat! [] :: ·)
+  | f + 1, "T" :: p :: i :: cbe :: n :: si :: nm :: rest =>
+    let pwt : Option (List PStr) := if si == "N" then none else some (sets.getD si.toNat! [])
+    -- `is_empty_element`: `len(self.contents) == 0 and self.can_be_empty_element is True`
+    let isEmpty := n.toNat! == 0 && cbe == "1"
+    (parseItems sets f rest).map (FItem.tag p.toNat! i.toNat! isEmpty [] [] (!shouldPrettyPrint pwt (cps nm)) :: ·)
+  | _ + 1, _ => none
+
 def parseIndentArg (s : String) : Option IndentArg :=
   if s == "N" then some .none
   else if s == "o" then some .other
@@ -200,6 +214,12 @@ def handle : List String → String
   | "ev" :: unit :: sets :: nq :: rest => runQueries "ev" unit sets nq rest
   | "raw" :: "impl" :: unit :: vcp :: sets :: nq :: rest => runRaw false unit vcp sets nq rest
   | "raw" :: "spec" :: unit :: vcp :: sets :: nq :: rest => runRaw true unit vcp sets nq rest
+  | "evs" :: sets :: rest =>
+    match parseItems (parseSets sets) (rest.length + 1) rest with
+    | some items =>
+      let evs := streamImpl [] items
+      if evs.isEmpty then "-" else ",".intercalate (evs.map showEv)
+    | none => "bad-items"
   | ["xmldecl", x, enc] => showP (xmlDecl (x == "1") (parseEnc enc BS.Gen.Pretty.soupDecodeDefaultEnc))
   | ["affix", nm] =>
     match BS.Gen.Pretty.stringAffixes.find? (fun e => e.1 == cps nm) with
